@@ -410,9 +410,25 @@ def compile_ast(
 
         # If there are only equality predicates, use normal join. Else use join_where
         if len(eq_predicates) == len(predicates):
-            if len(predicates) == 0:
+            if len(predicates) == 0 and nd.how == "inner":
                 # cross join, polars does not like an empty join condition
                 df = df.join(right_df, how="cross")
+
+            elif len(predicates) == 0:
+                # Every pair of rows matches, but a left / full join still keeps the rows of a side
+                # when the other side is empty (a cross join would return nothing then).
+                df = (
+                    df.with_columns(__JOIN_KEY__=pl.lit(0))
+                    .join(
+                        right_df.with_columns(__JOIN_KEY_RIGHT__=pl.lit(0)),
+                        left_on="__JOIN_KEY__",
+                        right_on="__JOIN_KEY_RIGHT__",
+                        how=nd.how,
+                        validate=nd.validate,
+                        coalesce=False,
+                    )
+                    .drop("__JOIN_KEY__", "__JOIN_KEY_RIGHT__")
+                )
 
             else:
                 df = df.join(
